@@ -77,6 +77,8 @@ def _call_expr(c, in_module, prog):
         return "globals()[%r](%s)" % (t, a)
     if form == "nested":
         return "str(%s(%s)).strip()" % (t, a)
+    if form == "rec":  # guarded, with a smaller argument: lets reference cycles (also through itself) terminate
+        return "(%s(x - 1) if isinstance(x, int) and 0 < x < 3 else 0)" % t
     if form == "comp":  # inside a comprehension
         return "[%s(%s) for _ in range(1)][0]" % (t, a)
     if form == "lambda":  # inside a lambda body
